@@ -156,15 +156,16 @@ class Ctx(object):
             self.violation(v)
 
     # ---- pool --------------------------------------------------------------------------------
-    def pmap(self, func, items, chunksize=1, nproc=None):
+    def pmap(self, func, items, chunksize=1, nproc=None, fresh=False):
         """Run func(item) over items in a fork pool; func returns (counters, violations, samples, states)."""
         items = self.rotate(items)
         nproc = nproc or NPROC
-        if nproc <= 1 or len(items) <= 1:
+        if (nproc <= 1 or len(items) <= 1) and not fresh:
             for it in items:
                 self._absorb(_guard(func, it))
             return
-        pool = multiprocessing.get_context('fork').Pool(nproc, initializer=_worker_init)
+        pool = multiprocessing.get_context('fork').Pool(max(nproc, 1), initializer=_worker_init,
+                                                       maxtasksperchild=1 if fresh else None)
         try:
             for res in pool.imap_unordered(_Guarded(func), items, chunksize):
                 self._absorb(res)
